@@ -37,6 +37,7 @@ type reinitStats struct {
 	// machines restarted after the re-initialisation, batches signed by restarted machines (reinitrestart.go)
 	ReinitRestarts, SignedAfterRestart int
 	AirDkg                             airTraceStats
+	OldDumps                           int
 }
 
 type reinitRun struct {
@@ -48,6 +49,8 @@ type reinitRun struct {
 	// the key-generation operations of the original ceremonies and the reinit_dkg operations of the new installations, as
 	// lines for the Lean model of the handlers (airdkg.go)
 	air *airTrace
+	// the next scenario re-initialises from a dump whose stamps lie 30 days before the nodes' clock
+	oldDump bool
 }
 
 func (r *reinitRun) mon(s string) {
@@ -250,6 +253,35 @@ func (r *reinitRun) scenarioE(outDir string, n, t int, interleave, junk, adapt, 
 		groupKey, _ = ks[round].PubPoly.Commit().MarshalBinary()
 	}
 	dump := a.boardMessages()
+	if r.oldDump {
+		// the dump of a ceremony held 30 days ago (dumps are re-initialised months after the ceremony, never within the
+		// confirmation deadlines): every stamp in every message moved back by 30 days, each message its sender really signed
+		// signed again in that form by the sender's key (a forged one stays forged). Every distance inside the log is
+		// unchanged; only the replaying node's clock is a month ahead of it
+		keys := map[string]ed25519.PrivateKey{}
+		for _, nd := range a.nodes {
+			keys[nd.name] = nd.kp.Priv
+		}
+		for i, m := range dump {
+			moved := stampRe.ReplaceAllFunc(m.Data, func(b []byte) []byte {
+				t, err := time.Parse(time.RFC3339Nano, string(b[1:len(b)-1]))
+				if err != nil || t.Year() < 2000 {
+					return b
+				}
+				return []byte(`"` + t.Add(-30*24*time.Hour).Format(time.RFC3339Nano) + `"`)
+			})
+			if bytes.Equal(moved, m.Data) {
+				continue
+			}
+			if len(m.Signature) == 0 {
+				dump[i].Data = moved // the opening proposal: nobody signs it
+			} else if priv, ok := keys[m.SenderAddr]; ok && ed25519.Verify(priv.Public().(ed25519.PublicKey), m.Data, m.Signature) {
+				dump[i].Data = moved
+				dump[i].Signature = ed25519.Sign(priv, moved)
+			}
+		}
+		r.st.OldDumps++
+	}
 	a.close()
 	if !adapt {
 		// nothing: the log has self-confirmations
@@ -559,9 +591,11 @@ func runReinitDiff(outDir string, seed int64, tier string) {
 	if tier == "thorough" {
 		cfgs = append(cfgs, cfg{4, 3, true, true, false, false}, cfg{3, 3, true, false, true, true}, cfg{5, 2, false, false, false, false}, cfg{4, 2, true, true, true, false}, cfg{3, 2, false, false, false, false})
 	}
-	for _, c := range cfgs {
+	for ci, c := range cfgs {
+		r.oldDump = ci%2 == 0
 		r.scenario(outDir, c.n, c.t, c.interleave, c.junk, c.adapt, c.blankIDs)
 	}
+	r.oldDump = false
 	// a junk log with a signing proposal in the middle of the key generation (known finding C20-early-signing-proposal)
 	r.scenarioE(outDir, 2, 2, false, true, false, false, true)
 	r.crashInReinit(outDir, 2, 2, tier == "thorough")
